@@ -5,6 +5,7 @@
 -/
 import Proofs.C07_Inside
 import Proofs.C07_Poscar
+import Proofs.C07_Bounds
 namespace Atomman.C07
 open Atomman
 set_option linter.unusedSimpArgs false
@@ -264,6 +265,39 @@ theorem data_wellformed (s : Sys) (style : String) (u : Units) (f : Fmt) (text :
       exact (hatoms k hk).pos
   · exact tilt_line_iff f style cols hcols p
 
+/-- **data_unwrap_positions**: for every written data file, applying the written image flags with the cell vectors a
+    LAMMPS run builds from the written header (`x + ix·a + iy·b + iz·c`) to the written position gives the atom's
+    original position in the length unit of the unit style — stated for the exact numbers the file prints (each printed
+    number is within half a unit of its last place of them, `data_parse_write`). -/
+theorem data_unwrap_positions (s : Sys) (style : String) (u : Units) (f : Fmt) (text : List Char)
+    (h : writeData s style u f = .ok text) (hu : ∀ c, u.factor? "length" = some (some c) → c ≠ 0) :
+    ∃ lf, lengthFactor u = .ok lf ∧ ∀ k (hk : k < s.pos.length),
+      ∃ q fl, (wrap s.box s.pbc s.pos).pos[k]? = some q ∧ (wrap s.box s.pbc s.pos).flags[k]? = some fl ∧
+        unwrapPos ((hiLoOf (wrap s.box s.pbc s.pos).box).map (divBy lf)) (v3map (divBy lf) q) fl
+          = v3map (divBy lf) s.pos[k] := by
+  unfold writeData writeDataDoc at h
+  cases hd : dataParts s style u with
+  | error e => rw [hd] at h; cases h
+  | ok pw =>
+    obtain ⟨p, w⟩ := pw
+    obtain ⟨hw, hnorm, lf, _, hlf, _⟩ := dataParts_ok s style u p w hd
+    subst hw
+    refine ⟨lf, hlf, fun k hk => data_unwrap s lf ?_ hnorm k hk⟩
+    intro c hc
+    apply hu c
+    unfold lengthFactor at hlf
+    cases hf : u.factor? "length" with
+    | none => rw [hf] at hlf; cases hlf
+    | some x =>
+      rw [hf] at hlf
+      simp only [pure, Except.pure, Except.ok.injEq] at hlf
+      rw [hlf, hc]
+
+example : ∀ c, exUnits.factor? "length" = some (some c) → c ≠ 0 := by
+  intro c hc
+  have : exUnits.factor? "length" = some (some 1) := by decide +kernel
+  rw [this] at hc; injection hc with hc; injection hc with hc; subst hc; norm_num
+
 /-! ## LAMMPS bounding box of a triclinic cell (dump manual page) -/
 
 /-- **dump_bbox** (inverse): removing the tilt extents from the written bounding box gives back `xlo … zhi`. -/
@@ -288,6 +322,18 @@ theorem dump_bbox_lo_lt_hi (h : HiLo) (hx : h.xlo < h.xhi) (hy : h.ylo < h.yhi) 
   constructor <;> split_ifs <;> linarith
 
 example : bboxOf ⟨0, 4, 0, 8, 0, 2, 3/2, -1/2, 1/4⟩ = ⟨-1/2, 11/2, 0, 33/4, 0, 2⟩ := by decide +kernel
+
+/-- `dump_bounds_error` for `%.nf`: the cell bounds rebuilt from a written dump file are within 3, 2, 1 half-units of
+    the last printed place of the cell's (x, y, z). -/
+theorem dump_bounds_error_fixed (h : HiLo) (n : Nat) :
+    let r := hiLoOfBBox ((bboxOf h).map (fmtVal (.fixed n))) (fmtVal (.fixed n) h.xy) (fmtVal (.fixed n) h.xz)
+      (fmtVal (.fixed n) h.yz)
+    |r.xlo - h.xlo| ≤ 3 * (1 / (2 * 10 ^ n)) ∧ |r.xhi - h.xhi| ≤ 3 * (1 / (2 * 10 ^ n)) ∧
+    |r.ylo - h.ylo| ≤ 2 * (1 / (2 * 10 ^ n)) ∧ |r.yhi - h.yhi| ≤ 2 * (1 / (2 * 10 ^ n)) ∧
+    |r.zlo - h.zlo| ≤ 1 / (2 * 10 ^ n) ∧ |r.zhi - h.zhi| ≤ 1 / (2 * 10 ^ n) := by
+  obtain ⟨h1, h2, h3, h4, h5, h6, _⟩ := dump_bounds_error h (fmtVal (.fixed n)) (1 / (2 * 10 ^ n))
+    (fun q => fixedVal_error q n)
+  exact ⟨h1, h2, h3, h4, h5, h6⟩
 
 /-! ## POSCAR: the universal scaling factor applies to the lattice AND to Cartesian coordinates -/
 
